@@ -3,9 +3,9 @@
 package main
 
 import (
+	"fmt"
 	"strings"
 	"time"
-	"fmt"
 
 	"verifharness/hx"
 )
@@ -38,13 +38,13 @@ func outsF12(c *hx.Ctx) {
 		if cfg[0] != "" {
 			x.SetRecvError(cfg[0], cfg[1])
 		}
-		ds, da := nebulaDefaultRecvErr()
+		ds, da := outsDefaultRecvErr()
 		fmt.Printf("---- cfg send=%q accept=%q (defaults: send=%s accept=%s)\n", cfg[0], cfg[1], ds, da)
 		tp, _ := x.Tunnel(p1.vpn)
 		tq, _ := x.Tunnel(q.vpn)
 		mk := func(idx uint32) []byte {
 			b := make([]byte, 16)
-			return headerEncode(b, 2, 0, idx, 0)
+			return outsHeaderEncode(b, 2, 0, idx, 0)
 		}
 		show := func(tag string) {
 			_, okp := x.Tunnel(p1.vpn)
@@ -52,9 +52,9 @@ func outsF12(c *hx.Ctx) {
 			fmt.Printf("  %-40s tunnel(P1)=%v tunnel(Q)=%v udp-out=%d\n", tag, okp, okq, len(x.DrainUDP()))
 		}
 		show("start")
-		x.Inject(mustAP("192.0.2.66:1000"), mk(tp.Remote))
+		x.Inject(outsMustAP("192.0.2.66:1000"), mk(tp.Remote))
 		show("recv_error idx(P1) from other addr")
-		x.Inject(mustAP("192.0.2.66:1000"), mk(tq.Remote))
+		x.Inject(outsMustAP("192.0.2.66:1000"), mk(tq.Remote))
 		show("recv_error idx(Q, relayed) from other addr")
 		x.Inject(p1.udp, mk(tp.Local))
 		show("recv_error LOCAL idx(P1) from P1 addr")
@@ -63,27 +63,31 @@ func outsF12(c *hx.Ctx) {
 	}
 }
 
-func init() { hx.Register("outs_time", func(c *hx.Ctx) {
-	t0 := timeNow()
-	for i := 0; i < 5; i++ {
-		outsStdWorld()
-	}
-	fmt.Println("5 worlds:", timeNow().Sub(t0))
-	w := outsStdWorld()
-	x := w.n(outsX)
-	t0 = timeNow()
-	for i := 0; i < 2000; i++ {
-		x.Digest()
-	}
-	fmt.Println("2000 digests:", timeNow().Sub(t0))
-}) }
+func init() {
+	hx.Register("outs_time", func(c *hx.Ctx) {
+		t0 := outsTimeNow()
+		for i := 0; i < 5; i++ {
+			outsStdWorld()
+		}
+		fmt.Println("5 worlds:", outsTimeNow().Sub(t0))
+		w := outsStdWorld()
+		x := w.n(outsX)
+		t0 = outsTimeNow()
+		for i := 0; i < 2000; i++ {
+			x.Digest()
+		}
+		fmt.Println("2000 digests:", outsTimeNow().Sub(t0))
+	})
+}
 
-func timeNow() time.Time { return time.Now() }
+func outsTimeNow() time.Time { return time.Now() }
 
-func init() { hx.Register("outs_victim", func(c *hx.Ctx) {
-	lab := outsNewLab(c)
-	fmt.Println(lab.victim())
-}) }
+func init() {
+	hx.Register("outs_victim", func(c *hx.Ctx) {
+		lab := outsNewLab(c)
+		fmt.Println(lab.victim())
+	})
+}
 
 func init() { hx.Register("outs_hsforge", outsHsForge) }
 
@@ -106,11 +110,11 @@ func outsHsForge(c *hx.Ctx) {
 	show := func(tag string) {
 		d := x.Digest()
 		t, _ := x.Tunnel(n.vpn)
-		fmt.Printf("%-34s hosts[N]=%s primary.local=%d primary.remote=%v\n", tag, hostsOf(d.Hosts, n.vpn.String()), t.Local, t.RemoteAddr)
+		fmt.Printf("%-34s hosts[N]=%s primary.local=%d primary.remote=%v\n", tag, outsHostsOf(d.Hosts, n.vpn.String()), t.Local, t.RemoteAddr)
 	}
 	show("genuine tunnel up")
 	fmt.Printf("stage-1 is %d bytes; tun at N so far: %d packets\n", len(stage1), len(w.takeTun(outsN)))
-	atk := mustAP("198.51.100.99:4242")
+	atk := outsMustAP("198.51.100.99:4242")
 	accepted := 0
 	for bit := 128 + 64*8; bit < len(stage1)*8 && accepted < 6; bit++ {
 		q := outsFlip(stage1, bit)
@@ -140,7 +144,7 @@ func outsHsForge(c *hx.Ctx) {
 	fmt.Printf("N has a tunnel to X again: %v; pending at N: %v\n", ok, n.Pending())
 }
 
-func hostsOf(hosts, addr string) string {
+func outsHostsOf(hosts, addr string) string {
 	for _, f := range strings.Fields(hosts) {
 		if strings.HasPrefix(f, addr+"=") {
 			return f
